@@ -51,7 +51,10 @@ class MemoryLimitError(Exception):
 
 
 def equal_split(node):
-    if isinstance(node, str):
+    if isinstance(node, str) or type(node) not in (tuple, list):
+        # an argument that is one single node ({{#if:..}}, {{#ifeq:..}}, {{{..}}}: tuple subclasses) has no
+        # top-level "=" of its own; an eqmark among its children belongs to that node's arguments
+        # ({{t|{{#if:1|=}}}} is the positional argument "=", not a named argument called "1")
         return None, node
 
     try:
